@@ -159,6 +159,10 @@ var c07Derive = probe.Define("C07", "derive", func(t *rapid.T) c07In {
 		in.Nonce = append(model.Bytes(nil), in.Secret...)
 	case 22:
 		in.SPIr = in.SPIi
+	case 12, 13:
+		in.SPIi = 0 // one SPI still zero (the responder's in an initial exchange, the initiator's never - a number like any other)
+	case 14, 15:
+		in.SPIr = 0
 	case 23:
 		in.Nonce = spis
 	}
